@@ -5,6 +5,7 @@ package gorums
 import (
 	"context"
 	"fmt"
+	"sync"
 
 	"google.golang.org/protobuf/reflect/protoreflect"
 )
@@ -48,12 +49,19 @@ func vThinNode(mgr *RawManager, id uint32, qcap int) *RawNode {
 		panic(err)
 	}
 	node.mgr = mgr
-	node.channel = &channel{
-		sendQ:           make(chan request, qcap),
-		responseRouters: make(map[uint64]responseRouter),
-		parentCtx:       context.Background(),
-		node:            node,
-	}
+	// The channel is set up by the real constructor - so that whatever fields the library
+	// has, adds or re-types are initialised the way the library initialises them - on a
+	// throw-away node whose context is cancelled at once (its sender goroutine ends). The
+	// thin node gets a copy of that struct with its own queue and context and NO sender.
+	tmp := &RawNode{id: id, addr: node.addr, mgr: mgr}
+	tc := newChannel(tmp)
+	tmp.cancel()
+	ch := new(channel)
+	*ch = *tc
+	ch.sendQ = make(chan request, qcap)
+	ch.parentCtx = context.Background()
+	ch.node = node
+	node.channel = ch
 	mgr.nodes = append(mgr.nodes, node)
 	mgr.lookup[id] = node
 	return node
@@ -82,8 +90,22 @@ func vTake(n *RawNode) (request, bool) {
 }
 
 // vPending reports the number of routing entries of a node.
+// (Only called at quiescence, when no library goroutine is running; it takes no lock so that
+// it does not depend on how the library guards the table.)
 func vRouters(n *RawNode) int {
-	n.channel.responseMut.Lock()
-	defer n.channel.responseMut.Unlock()
-	return len(n.channel.responseRouters)
+	return vCountEntries(&n.channel.responseRouters)
+}
+
+// vCountEntries counts the entries of the routing table whatever container the library keeps
+// it in (a map today; the harness must not stop compiling when that changes).
+func vCountEntries(table interface{}) int {
+	switch m := table.(type) {
+	case *map[uint64]responseRouter:
+		return len(*m)
+	case *sync.Map:
+		k := 0
+		m.Range(func(_, _ interface{}) bool { k++; return true })
+		return k
+	}
+	panic("verif: unknown routing table type")
 }
